@@ -83,6 +83,12 @@ type DFA struct {
 	// When false (most patterns), this check is skipped entirely.
 	hasEndLine bool
 
+	// lookBehindMask holds the look-behind assertion kinds (LookStartText,
+	// LookStartLine) that occur in the NFA. A DFA state records which of them hold
+	// at its position (State.lookHave); kinds that do not occur are masked out so
+	// that they never distinguish two states.
+	lookBehindMask LookSet
+
 	// isAlwaysAnchored is true if the pattern is inherently anchored (has ^ prefix).
 	// When true, we only need to try matching from position 0.
 	isAlwaysAnchored bool
@@ -229,13 +235,6 @@ func (d *DFA) SearchAtAnchored(cache *DFACache, haystack []byte, at int) int {
 
 	for pos := at; pos < len(haystack); pos++ {
 		b := haystack[pos]
-
-		if d.hasWordBoundary {
-			st := cache.getState(sid)
-			if st != nil && st.checkWordBoundaryFast(b) {
-				return pos
-			}
-		}
 
 		classIdx := int(d.byteToClass(b))
 		offset := sid.Offset() + classIdx
@@ -427,13 +426,6 @@ func (d *DFA) searchFirstAt(cache *DFACache, haystack []byte, startPos int) int 
 				ft = cache.flatTrans
 				ftLen = len(ft)
 				continue
-			}
-		}
-
-		if d.hasWordBoundary {
-			st := cache.getState(sid)
-			if st != nil && st.checkWordBoundaryFast(haystack[pos]) {
-				return pos
 			}
 		}
 
@@ -710,13 +702,6 @@ func (d *DFA) searchEarliestMatch(cache *DFACache, haystack []byte, startPos int
 
 		b := haystack[pos]
 
-		// Check if word boundary would result in a match BEFORE consuming the byte.
-		// O(1) word boundary match check using pre-computed flags (was 30% CPU).
-		// matchAtWordBoundary/matchAtNonWordBoundary computed during determinize.
-		if d.hasWordBoundary && currentState.checkWordBoundaryFast(b) {
-			return true
-		}
-
 		// Flat table lookup for transition
 		classIdx := int(d.byteToClass(b))
 		offset := sid.Offset() + classIdx
@@ -822,13 +807,6 @@ func (d *DFA) searchEarliestMatchAnchored(cache *DFACache, haystack []byte, star
 	for pos := startPos; pos < len(haystack); pos++ {
 		b := haystack[pos]
 
-		if d.hasWordBoundary {
-			st := cache.getState(sid)
-			if st != nil && st.checkWordBoundaryFast(b) {
-				return true
-			}
-		}
-
 		classIdx := int(d.byteToClass(b))
 		offset := sid.Offset() + classIdx
 
@@ -933,13 +911,6 @@ func (d *DFA) findWithPrefilterAt(cache *DFACache, haystack []byte, startAt int)
 				ft = cache.flatTrans
 				ftLen = len(ft)
 				continue
-			}
-		}
-
-		if d.hasWordBoundary {
-			st := cache.getState(sid)
-			if st != nil && d.checkWordBoundaryMatch(st, haystack[pos]) {
-				return pos
 			}
 		}
 
@@ -1232,10 +1203,6 @@ func (d *DFA) searchAt(cache *DFACache, haystack []byte, startPos int) int { //n
 
 		b := haystack[pos]
 
-		if d.hasWordBoundary && d.checkWordBoundaryMatch(currentState, b) {
-			return pos
-		}
-
 		// Flat table lookup for transition
 		classIdx := int(d.byteToClass(b))
 		offset := sid.Offset() + classIdx
@@ -1315,30 +1282,38 @@ func (d *DFA) determinize(cache *DFACache, current *State, b byte) (*State, erro
 	classIdx := d.byteToClass(b)
 
 	// Look-ahead re-computation (Rust determinize mod.rs:131-212):
-	// Before checking for matches, resolve look-ahead assertions that depend
-	// on the current input byte. When input is '\n', EndLine ($) is satisfied
-	// for the CURRENT state, unlocking paths through $ assertions.
-	// This re-runs epsilon closure on the current state's NFA IDs with the
-	// new look-ahead, potentially adding Match states behind $ assertions.
+	// Before checking for matches, resolve the assertions that depend on the
+	// current input byte: when it is '\n', EndLine ($) is satisfied for the
+	// CURRENT state; \b / \B are decided by the word-ness of the previous byte
+	// (current.IsFromWord) against the word-ness of this byte. The closure of the
+	// current state's NFA IDs is re-run in priority order with the state's
+	// look-behind context plus this look-ahead, which unlocks the paths behind
+	// the assertions - possibly Match states - at the priority of the thread
+	// that waits in front of them.
 	currentNFAStates := current.NFAStates()
-	if d.hasEndLine && b == '\n' {
-		currentNFAStates = builder.epsilonClosure(currentNFAStates, LookEndLine)
+	if d.hasWordBoundary || (d.hasEndLine && b == '\n') {
+		currentNFAStates = builder.resolveLookAhead(currentNFAStates, current.lookHave, current.IsFromWord(), b)
 	}
 
 	// 1-byte match delay (Rust determinize mod.rs:254-286):
 	// Check if source (current) state's NFA states contain a match state.
 	// The NEW DFA state will be tagged as match if the OLD state had NFA match.
-	// This delays match reporting by 1 byte, enabling correct look-around (^, $, \b).
+	// This delays match reporting by 1 byte, enabling correct look-around (^, $, \b):
+	// a match behind \b or \B is found here, with the look-ahead resolved, like
+	// a match behind $. The search loops need no separate word-boundary check in
+	// front of the transition (such a check cannot know whether a thread of higher
+	// priority than the match survives this byte and must win instead).
 	sourceHasMatch := builder.containsMatchState(currentNFAStates)
 
-	// Compute next NFA state set via move operation WITH word context.
+	// Compute next NFA state set via move operation on the resolved threads.
 	// Leftmost-first (Rust determinize::next mod.rs:284):
 	// When source has NFA match AND BreakAtMatch is enabled, stop iterating
-	// at the first Match state. States after Match (prefix restarts) are not
-	// processed, causing the DFA to reach dead state with the committed match.
+	// at the first Match state. States after Match (lower priority threads, prefix
+	// restarts) are not processed, causing the DFA to reach dead state with the
+	// committed match unless a thread of higher priority is still alive.
 	// BreakAtMatch is disabled for reverse DFAs to allow finding leftmost start.
 	breakAtMatch := sourceHasMatch && d.config.BreakAtMatch
-	nextNFAStates := builder.moveWithWordContextBreak(currentNFAStates, b, current.IsFromWord(), breakAtMatch)
+	nextNFAStates := builder.step(currentNFAStates, b, breakAtMatch)
 
 	isMatch := sourceHasMatch
 
@@ -1366,11 +1341,17 @@ func (d *DFA) determinize(cache *DFACache, current *State, b byte) (*State, erro
 	// needs to know what byte got us there (for the next transition's word boundary check)
 	nextIsFromWord := isWordByte(b)
 
-	// Compute state key INCLUDING word context AND match delay flag.
+	// Likewise for the look-behind context: after '\n' a line starts.
+	var nextLookHave LookSet
+	if b == '\n' {
+		nextLookHave = LookStartLine & d.lookBehindMask
+	}
+
+	// Compute state key INCLUDING word context, look-behind context AND match delay flag.
 	// With match delay, the same NFA state set can produce both match and
 	// non-match DFA states (depending on whether the source had NFA match).
 	// The key is order-sensitive: the order of nextNFAStates is the thread priority.
-	key := ComputeOrderedStateKey(nextNFAStates, nextIsFromWord, isMatch)
+	key := computeStateKey(nextNFAStates, nextIsFromWord, isMatch, nextLookHave)
 
 	// Check if state already exists in cache
 	if existing, ok := cache.Get(key); ok {
@@ -1382,17 +1363,7 @@ func (d *DFA) determinize(cache *DFACache, current *State, b byte) (*State, erro
 
 	// Create new DFA state with word context and compressed alphabet stride
 	newState := NewStateWithStride(InvalidState, nextNFAStates, isMatch, nextIsFromWord, d.AlphabetLen())
-
-	// Pre-compute word boundary match flags to avoid per-byte checkWordBoundaryMatch.
-	// This eliminates the expensive Builder + resolveWordBoundaries call in the hot loop.
-	if d.hasWordBoundary && !isMatch {
-		// Check: would resolving \b (word boundary satisfied) produce a match?
-		wbStates := builder.resolveWordBoundaries(nextNFAStates, true)
-		newState.matchAtWordBoundary = builder.containsMatchState(wbStates)
-		// Check: would resolving \B (word boundary NOT satisfied) produce a match?
-		nwbStates := builder.resolveWordBoundaries(nextNFAStates, false)
-		newState.matchAtNonWordBoundary = builder.containsMatchState(nwbStates)
-	}
+	newState.lookHave = nextLookHave
 
 	// Insert into cache
 	_, err := cache.Insert(key, newState)
@@ -1460,8 +1431,9 @@ func (d *DFA) tryClearCache(cache *DFACache) error {
 	startStateSet := builder.epsilonClosure([]nfa.StateID{d.nfa.StartUnanchored()}, startLook)
 	// With 1-byte match delay, start states are never match states.
 	startState := NewStateWithStride(StartState, startStateSet, false, false, d.AlphabetLen())
+	startState.lookHave = startLook & d.lookBehindMask
 
-	key := ComputeOrderedStateKey(startStateSet, false, false)
+	key := computeStateKey(startStateSet, false, false, startState.lookHave)
 	_, _ = cache.Insert(key, startState) // Cannot fail: cache was just cleared
 	cache.registerState(startState)
 
@@ -1478,6 +1450,7 @@ func (d *DFA) tryClearCache(cache *DFACache) error {
 // This handles patterns with trailing word boundary assertions like `test\b`.
 //
 // At end-of-input:
+//   - \z and $ are satisfied; \A / (?m)^ as recorded in the state (empty last line)
 //   - Previous byte is known from state.IsFromWord()
 //   - "Next" byte is conceptually non-word (outside the string)
 //   - \b is satisfied if previous was word char (word → non-word transition)
@@ -1490,44 +1463,7 @@ func (d *DFA) checkEOIMatch(state *State) bool {
 	// Create a temporary builder for EOI resolution
 	// Use NewBuilderWithWordBoundary to avoid O(states) scan per call (Issue #105)
 	builder := NewBuilderWithWordBoundary(d.nfa, d.config, d.hasWordBoundary)
-	return builder.CheckEOIMatch(state.NFAStates(), state.IsFromWord())
-}
-
-// checkWordBoundaryMatch checks if resolving word boundary assertions with
-// the given next byte would result in a match.
-//
-// This is needed for patterns like `test\b` where after matching "test",
-// the next byte (e.g., '!') creates a word boundary that satisfies \b.
-// The \b resolves to Match state, but we shouldn't consume the '!'.
-//
-// Returns true if crossing a word boundary results in a NEW match (i.e., the current
-// state wasn't already a match, but resolving word boundaries produces one).
-// Returns false for patterns without word boundaries (e.g., `a*`).
-func (d *DFA) checkWordBoundaryMatch(state *State, nextByte byte) bool {
-	if state == nil {
-		return false
-	}
-
-	// If already a match state, don't use word boundary shortcut
-	// Let normal processing handle it (for leftmost-longest semantics)
-	if state.IsMatch() {
-		return false
-	}
-
-	// Use NewBuilderWithWordBoundary to avoid O(states) scan per call (Issue #105)
-	builder := NewBuilderWithWordBoundary(d.nfa, d.config, d.hasWordBoundary)
-	isFromWord := state.IsFromWord()
-	isNextWord := isWordByte(nextByte)
-	wordBoundarySatisfied := isFromWord != isNextWord
-
-	// Resolve word boundary assertions
-	// This only expands states if word boundary assertions are actually crossed
-	resolved := builder.resolveWordBoundaries(state.NFAStates(), wordBoundarySatisfied)
-
-	// Check if resolving word boundaries added any match states
-	// If resolved == original states (no word boundaries crossed), this returns false
-	// because the original states weren't matches (checked above)
-	return builder.containsMatchState(resolved)
+	return builder.checkEOIMatchLook(state.NFAStates(), state.IsFromWord(), state.lookHave)
 }
 
 // getStartState returns the appropriate start state for the given position.
@@ -1555,9 +1491,7 @@ func (d *DFA) getStartState(cache *DFACache, haystack []byte, pos int, anchored 
 	}
 
 	// Not cached - compute and store with proper stride for ByteClasses compression
-	builder := NewBuilderWithWordBoundary(d.nfa, d.config, d.hasWordBoundary)
-	config := StartConfig{Kind: kind, Anchored: anchored}
-	state, key := ComputeStartStateWithStride(builder, d.nfa, config, d.AlphabetLen())
+	state, key := d.computeStartState(StartConfig{Kind: kind, Anchored: anchored})
 
 	// Try to insert into cache using GetOrInsert
 	// This handles the case where another goroutine may have inserted it
@@ -1583,6 +1517,18 @@ func (d *DFA) getStartState(cache *DFACache, haystack []byte, pos int, anchored 
 	cache.startTable.Set(kind, anchored, insertedState.ID())
 
 	return insertedState
+}
+
+// computeStartState builds the (not yet cached) start state for a start
+// configuration and its cache key. The state records the look-behind assertions
+// that hold at the start position (restricted to the kinds the NFA contains): the
+// same context its epsilon closure was computed with.
+func (d *DFA) computeStartState(config StartConfig) (*State, StateKey) {
+	builder := NewBuilderWithWordBoundary(d.nfa, d.config, d.hasWordBoundary)
+	state, _ := ComputeStartStateWithStride(builder, d.nfa, config, d.AlphabetLen())
+	state.lookHave = LookSetFromStartKind(config.Kind) & d.lookBehindMask
+	key := computeStateKey(state.NFAStates(), state.IsFromWord(), state.IsMatch(), state.lookHave)
+	return state, key
 }
 
 // getStartStateForUnanchored is a convenience method for unanchored search.
@@ -2135,9 +2081,7 @@ func (d *DFA) getStartStateForReverse(cache *DFACache, haystack []byte, end int)
 	}
 
 	// Not cached - compute and store with proper stride for ByteClasses compression
-	builder := NewBuilderWithWordBoundary(d.nfa, d.config, d.hasWordBoundary)
-	cfg := StartConfig{Kind: kind, Anchored: false}
-	state, key := ComputeStartStateWithStride(builder, d.nfa, cfg, d.AlphabetLen())
+	state, key := d.computeStartState(StartConfig{Kind: kind, Anchored: false})
 
 	insertedState, existed, err := cache.GetOrInsert(key, state)
 	if err != nil {
